@@ -25,9 +25,17 @@ EDNS = {"off": ["none"], "on": ["edns", 0, 0, 1232, []], "opts": ["edns", 0, 327
 PADS = [0, 16, 128, 468]
 # an OPT that already carries a PADDING option (a forwarder re-rendering a parsed padded query, or a caller-supplied
 # option): empty and non-empty
-EDNS_X = {"padopt0": ["edns", 0, 0, 1232, [[12, []]]], "padopt5": ["edns", 0, 0, 1232, [[12, [0] * 5], [10, [7] * 8]]]}
-BADTIME = {"terr": 18, "other": [0, 0, 95, 94, 16, 0]}        # TSIG error BADTIME with its 6-octet other data
-NOERR = {"terr": 0, "other": []}
+# ... and an OPT whose options are held as the library's TYPED option objects with bodies whose text length differs from
+# their octet length (EDE, RFC 8914, EXTRA-TEXT "\u00e9\u00e9\u20ac" = 7 octets / 3 characters)
+EDNS_X = {"padopt0": ["edns", 0, 0, 1232, [[12, []]]], "padopt5": ["edns", 0, 0, 1232, [[12, [0] * 5], [10, [7] * 8]]],
+          "ede8": ["edns", 0, 0, 1232, [[15, [0, 1, 0xC3, 0xA9, 0xC3, 0xA9, 0xE2, 0x82, 0xAC]], [3, [0xC3, 0xA9]]]]}
+ALG = lambda name: [list(l.encode()) for l in name.split(".")]
+ALG256 = ALG("hmac-sha256")
+# every HMAC TSIG algorithm of RFC 8945 table 6.1, truncated variants included (MAC sizes 16..64)
+ALGS = [ALG(a) for a in ("hmac-sha256-128", "hmac-sha384-192", "hmac-sha512-256", "hmac-sha1", "hmac-sha224", "hmac-sha384",
+                         "hmac-sha512", "hmac-md5.sig-alg.reg.int")]
+BADTIME = {"terr": 18, "other": [0, 0, 95, 94, 16, 0], "alg": ALG256}   # TSIG error BADTIME with its 6-octet other data
+NOERR = {"terr": 0, "other": [], "alg": ALG256}
 
 
 def tset(xs):
@@ -41,21 +49,29 @@ def gen_scripts(ctx, n, seed):
     return ctx.generate("Gen_Renderer", cfg, simulate="num=%d" % n, depth=10, seed=seed, deadlock=False)
 
 
-def configs(extras=True, pads=None):
+def configs(extras=True, pads=None, edns=None, keys=None, quick=False):
     """(edns name, edns, pad, key name, key, tsig extras, pt)"""
     for en, ed in EDNS.items():
+        if edns and en not in edns:
+            continue
         for pad in ((pads or PADS) if en != "off" else [0]):
             for kn, key in KEYS.items():
+                if keys and kn not in keys:
+                    continue
                 for pt in (False, True):
                     yield en, ed, pad, kn, key, NOERR, pt
     for pt in ((False, True) if extras else ()):
-        for pad in (0, 16, 128):
+        for pad in ((0, 16) if quick else (0, 16, 128)):
             # TSIG with an error and other data (BADTIME response)
             yield "on", EDNS["on"], pad, "badtime", KEYS["shared"], BADTIME, pt
             # OPT already holding a PADDING option
             for en, ed in EDNS_X.items():
                 for kn in ("none", "shared"):
                     yield en, ed, pad, kn, KEYS[kn], NOERR, pt
+        # the other TSIG algorithms (different MAC sizes)
+        for pad in ((128,) if quick else (16, 128)):
+            for a in ALGS:
+                yield "on", EDNS["on"], pad, "shared-" + bytes(a[0]).decode(), KEYS["shared"], {**NOERR, "alg": a}, pt
 
 
 def classify(tr, line, clause):
@@ -69,7 +85,8 @@ def classify(tr, line, clause):
         plain = sum(len(l) + 1 for l in cfg["key"]) + 1
         if tsig and tsig[0]["res"] == "ok":
             k = ev.index(tsig[0])
-            owner = tsig[0]["pos"] - ev[k - 1]["pos"] - (10 + 61 + len(cfg.get("other", [])))
+            rdlen = sum(len(l) + 1 for l in cfg["alg"]) + 1 + 16 + len(tsig[0]["mac"]) + len(cfg.get("other", []))
+            owner = tsig[0]["pos"] - ev[k - 1]["pos"] - (10 + rdlen)
             if owner < plain:
                 return "F7:pad+tsig-owner-compressed:I8_PadMultiple"
     if clause == "TruncationPreferredButRaised" and cfg["pad"] > 0 and cfg["pt"] and edns:
@@ -108,17 +125,20 @@ def sweep_jobs():
             sc = [{"op": "hdr", "id": 4660, "opcode": 0, "bits": 256, "rcode": 0, "origin": False, "edns": ed},
                   {"op": "q", "name": [[120] * ln, EX], "type": 1, "cls": 1}, {"op": "end"}]
             for pad in (16, 32, 128):
-                for kn, tx in (("shared", NOERR), ("unrelated", NOERR), ("shared", BADTIME)):
+                for kn, tx in [("shared", NOERR), ("unrelated", NOERR), ("shared", BADTIME)] + (
+                        [("shared", {**NOERR, "alg": a}) for a in ALGS] if en == "on" else []):
                     for pt in (False, True):
-                        jobs.append(("sweep.q%d.%s.p%d.%s%d.pt%d" % (ln, en, pad, kn, tx["terr"], pt), sc,
+                        jobs.append(("sweep.q%d.%s.p%d.%s%d.%s.pt%d" % (ln, en, pad, kn, tx["terr"], bytes(tx["alg"][0]).decode(), pt), sc,
                                      {"pad": pad, "key": KEYS[kn], "pt": pt, "max": 512, **tx}))
     return jobs
 
 
-def make_jobs(ctx, scripts, want, lo=520, hi=900, extras_all=True):
+def make_jobs(ctx, scripts, want, lo=520, hi=900, extras_all=True, qscripts=(), qwant=0):
     jobs = []
     used = 0
-    scripts = [SEED_MESSAGE] + list(scripts)
+    nq = len([s for s in qscripts][:qwant])
+    scripts = [SEED_MESSAGE] + list(qscripts)[:qwant] + list(scripts)
+    want += nq
     for i, s in enumerate(scripts):
         if used >= want:
             break
@@ -128,7 +148,13 @@ def make_jobs(ctx, scripts, want, lo=520, hi=900, extras_all=True):
             continue
         used += 1
         # quick: the BADTIME / existing-PADDING-option configurations run on the seed message (and in the sweep) only
-        for en, ed, pad, kn, key, tx, pt in configs(extras_all or i == 0, None if (extras_all or i == 0) else [0, 16, 128]):
+        if extras_all or i == 0:
+            cfgs = configs(True, quick=not extras_all)
+        elif 1 <= i <= nq:      # quick, multi-question message: reduced product
+            cfgs = configs(False, [0, 128], ("off", "on"), ("none", "shared"))
+        else:                   # quick, simulated message: reduced product
+            cfgs = configs(False, [0, 128], None, ("none", "shared"))
+        for en, ed, pad, kn, key, tx, pt in cfgs:
             h = dict(base)
             h["edns"] = ed
             sc = [h] + s[1:]
@@ -151,6 +177,24 @@ def make_jobs(ctx, scripts, want, lo=520, hi=900, extras_all=True):
     return jobs, used
 
 
+def low_level_part(ctx, quick):
+    """the low-level Renderer under small budgets through BOTH entry points (add_rrset and add_rdataset): overflow,
+    whole-set rollback, counts and table after the rollback, header written afterwards (Trace_Renderer judges)"""
+    from checks import c03
+    from drivers import c03_message
+    S = ctx.generate("Gen_Renderer", c03.gen_cfg(ctx, "c08low.cfg", names=tset([2, 3]), targets=tset([3]), kinds=tset(["A", "NS"]),
+                                                 maxrecs=2 if quick else 3, maxes=tset([45, 56])))
+    jobs = [("low%d.%s" % (i, mode), s, mode) for i, s in enumerate(S) for mode in ("low", "lowrds")]
+    traces = ctx.pmap(c03_message.run_job, jobs)
+    ctx.extra["low_level_traces"] = len(traces)
+    jm = {j[0]: j for j in jobs}
+    for tr, line, clause in ctx.validate("Trace_Renderer", "Trace_Renderer.cfg", traces):
+        e = tr["ev"][line - 1] if line else {}
+        ctx.violation(clause, "lowlevel:" + c03.classify(tr, line, clause),
+                      "low-level Renderer, entry point %s, event %s: %s" % (tr.get("mode"), line, json.dumps(e)[:240]),
+                      {"lowlevel": True, "script": jm[tr["tid"]][1], "mode": tr.get("mode"), "line": line, "trace": tr})
+
+
 def run(ctx):
     quick = ctx.tier == "quick"
     ctx.rule = ("renderings = message script (TLC simulation of Gen_Renderer, kept when 520..900 octets) x EDNS {off,on,options} "
@@ -162,13 +206,27 @@ def run(ctx):
     ctx.log("start")
     if ctx.replay_case:
         case = ctx.replay_case["case"]
+        if case.get("lowlevel"):
+            from drivers import c03_message
+            from checks import c03
+            tr = c03_message.run_job(("replay", case["script"], case["mode"]))
+            for tr, line, clause in ctx.validate("Trace_Renderer", "Trace_Renderer.cfg", [tr]):
+                ctx.violation(clause, "lowlevel:" + c03.classify(tr, line, clause), "low-level replay", case)
+            return
         jobs = [("replay", case["script"], case["cfg"])]
         r = c08_limits.run_job(jobs[0])
         traces = r if isinstance(r, list) else [r]
     else:
         ctx.model("MC_RendererLimits", "MC_RendererLimits_quick.cfg" if quick else "MC_RendererLimits_thorough.cfg", workers=1)
         scripts = gen_scripts(ctx, 60 if quick else 400, ctx.seed + 1)
-        jobs, used = make_jobs(ctx, scripts, 2 if quick else 16, extras_all=not quick)
+        from checks import c03
+        # messages with several questions whose long, incompressible names alone exceed the 512-octet floor
+        qscripts = ctx.generate("Gen_Renderer", c03.gen_cfg(
+            ctx, "c08q.cfg", names=tset([7, 8, 9]), kinds=tset(["A"]), maxrecs=1, qmax=3, qsel=tset([True]), secs=tset([1, 3])))
+        qscripts = [s for s in qscripts if sum(1 for e in s if e["op"] == "q") == 3]
+        jobs, used = make_jobs(ctx, scripts, 2 if quick else 14, extras_all=not quick, qscripts=qscripts[1::7],
+                               qwant=1 if quick else 3)
+        low_level_part(ctx, quick)
         jobs += sweep_jobs()
         ctx.extra["messages"] = used
         ctx.log("%d messages -> %d renderings" % (used, len(jobs)))
